@@ -354,7 +354,7 @@ def gen_program(rnd, k, idx=0, name=None):
                 a = rnd.choice(gnames)
                 b = rnd.choice(gnames)
                 form = rnd.choice(["{a} and {b}", "{a} or {b}", "not {a}", "{a} and not {b}",
-                                   "not {a} or {b}"])
+                                   "not {a} or {b}", "{a} == {b}", "{a} != {b}", "{a} > {b}", "{a} <= {b}"])
                 t.setdefault("cond", []).append(form.format(a=a, b=b))
     if rnd.random() < k["p_multi_source"]:
         # ``c.from_(a, b, ...)``: one declaration, one transition per source state (same target, same
@@ -592,6 +592,12 @@ def gen_ops(rnd, prog, k, inst="A", first_new=True, n_ops=None, new_kw=None):
     return ops
 
 
+def _expr_names_of(expr):
+    from .ref import _expr_names
+
+    return _expr_names(expr)
+
+
 def gen_scenario(rnd, k, profile="generic"):
     prog = gen_program(rnd, k)
     mode = rnd.choice(k["async_modes"])
@@ -618,7 +624,14 @@ def gen_scenario(rnd, k, profile="generic"):
     if is_async:
         ops[0]["rtc"] = True
     beh, gv = gen_behaviours(rnd, prog, k, len(ops), senders)
-    gv_kind = {c: "any" for c in sorted(gv) if rnd.random() < k["p_guard_any_value"]}
+    # (operands of comparison expressions keep bool values: ``3 > "x"`` is a TypeError in Python itself)
+    cmp_names = set()
+    for t in prog["trans"] + prog.get("any", []):
+        for e in list(t.get("cond", [])) + list(t.get("unless", [])):
+            if any(op_ in e for op_ in ("==", "!=", ">", "<")):
+                cmp_names.update(_expr_names_of(e))
+    gv_kind = {c: "any" for c in sorted(gv) if rnd.random() < k["p_guard_any_value"]
+               and c.split(".", 1)[1] not in cmp_names}
     sc = {"profile": profile, "programs": [prog], "beh": beh, "gv": gv, "gv_kind": gv_kind, "ops": ops,
           "driver": rnd.choice(k["drivers"]), "perm_seed": rnd.randrange(1 << 30)}
     return sc
